@@ -37,6 +37,7 @@ func runC06(c *Ctx) {
 	ruleCanonicalOrder(c, "R6.1")
 	ruleIndexConsistency(c, "R6.2")
 	ruleGroupFromTerms(c, "R6.3")
+	ruleNoLocalInputInGroup(c, "R6.4")
 	ruleEchoBroadcastOrder(c, "R6.5")
 	ruleSignedCoverage(c, "R6.6") // the terms the final group is built from are the terms every node verified: all of them are signed
 }
@@ -525,4 +526,35 @@ func ruleAtomicReplace(c *Ctx, rule string) {
 	}
 	c.Ok(rule, "common/key.Save replaces group/share files atomically", c.P.Pos(save.Pos()), hasRename && !truncates,
 		"the final path is truncated in place (os.Create / CreateSecureFile on filePath) and no rename of a temporary file follows: a crash after the truncation leaves an empty or partial group/share file and the previous one is gone")
+}
+
+// R6.4: nothing that is local to one node flows into the agreed group. The transition time handed to asGroup must be a
+// function of the agreed terms alone; a reading of the node's own clock makes two honest nodes that finish on different
+// sides of a round boundary build different groups (known finding F13).
+func ruleNoLocalInputInGroup(c *Ctx, rule string) {
+	c.ranRules[rule] = true
+	se := c.P.Fn("internal/dkg.(*Process).startDKGExecution")
+	if !c.Anchor(rule, "internal/dkg.(*Process).startDKGExecution", se != nil) {
+		return
+	}
+	n := 0
+	for _, f := range withClosures(se) {
+		for _, ci := range callsIn(f, func(ci ssa.CallInstruction) bool { return strings.HasSuffix(calleeName(ci), "internal/dkg.asGroup") }) {
+			a := ci.Common().Args
+			if len(a) < 5 {
+				continue
+			}
+			n++
+			os := originsExpanded(a[4], 0)
+			var local []string
+			for _, o := range os {
+				if o.Kind == "call" && (strings.HasSuffix(o.Name, "time.Now") || strings.HasSuffix(o.Name, ".Now") || strings.HasSuffix(o.Name, "time.Since")) {
+					local = append(local, o.Name)
+				}
+			}
+			c.Ok(rule, "internal/dkg.startDKGExecution: the transition time of the new group derives from the agreed terms only", shortPos(c.P, ci), len(local) == 0,
+				"origins: "+strings.Join(originStrings(os), ",")+ifStr(len(local) > 0, "; node-local input: "+strings.Join(local, ",")))
+		}
+	}
+	c.Floor(rule, "asGroup calls in startDKGExecution", n, 1)
 }
